@@ -32,6 +32,20 @@ type Oracle func(s *Scenario, x *vrt.Exec, o *Obs) []vrt.Violation
 func runBody(s *Scenario, obs *Obs, cancelAfterMS int64) func() {
 	return func() {
 		*obs = Obs{}
+		if s.ParseOnly {
+			w := env.NewWorld(s.Script)
+			w.Phase = "prepare"
+			env.W = w
+			obs.W = w
+			_, err := prepare(s.Prog.YAML(), s.Prog.Files())
+			obs.Err = err
+			obs.Returned = true
+			obs.RetT = vrt.NowMS()
+			obs.RetSeq = len(w.Ledger)
+			env.Log("prepare-returned", "", "", 0, nil, nil)
+			obs.Live = vrt.Settle("harness/settle")
+			return
+		}
 		pw, err := s.prepared()
 		if err != nil {
 			panic("scenario does not prepare: " + err.Error())
